@@ -48,3 +48,21 @@ check('C11', 'exploration',
       'against a certified erf/erfc quantile, tolerance 3e-14.',
       'Uniform answers come from finite tape families; shuffle answers complete only for n <= 5; libm erf/erfc trusted to a few ulp; entries advertising no skip may use any single skip in 0..64.',
       'bounded exhaustive enumeration of catalogue entries x sizes x enumerated RNG answers; exhaustive dyadic grid for the quantile transform', 'DESIGN.md section 4, C11')
+check('C16', 'model_checking',
+      'Explicit-state exploration of the configuration graph of 16 (thorough 17) catalog structures on the real Catalog / Controller / CentralController objects. Every configuration of every product is selected through every entry point and compared '
+      '(str, decoded signature tree, engine value on every row at two parameter points) with the formula written out by hand. From every configuration, and from every hidden object state, every operator of prepare_operators() x a step alphabet x every answer of the '
+      'random seam is applied and compared with a plain-Python reference model (closure, inverse, reached sets); all operator histories to depth 2 (thorough 3-4) are replayed; states reached equal the products (84 / 108), 0.27 M / 9.0 M transitions validated.',
+      'Bounded: <= 3 controllers, <= 4 selections, <= 12 (24) configurations per structure; names free of the reserved ; and :. Randomness owned at biogeme.controller.random; any other use is a harness error. Fixed parameters keep their value under betas=, and Decrease_several may increase (both accepted).',
+      'bounded exhaustive explicit-state search (all configurations x operators x steps x all answers of an enumerated random seam, all histories to a depth bound) on the real code against a reference model', 'DESIGN.md section 4, C16')
+check('C17', 'exploration',
+      'Bounded exhaustive enumeration of helper configurations executed on the real code: all admissible piecewise threshold lists of length 2-4 (thorough 2-5) x all coefficient vectors x argument grids containing every threshold and its floating-point neighbours; a Box-Cox lambda grid '
+      'straddling the switching point and zero; distribution parameter grids x kink-containing argument grids with Simpson integrals of engine values; all segmentations of 0-2 (3) variables x every reference with the generated code executed; all nest structures of 2-4 (5) alternatives - each in every supported '
+      'way of passing parameters, compared with the documented closed form written in plain Python (2.1e5 / 1.2e6 comparisons).',
+      'Continuous domains covered at grid points (every branch point and its neighbours included). Densities compared to 1e-9 relative (the library constants have 10 digits); integrals to 1e-6; Box-Cox at x = 0 counted as out of domain; an open first piecewise interval is measured from the origin.',
+      'bounded exhaustive enumeration of helper configurations x argument grids through the real engine vs documented closed forms', 'DESIGN.md section 4, C17')
+check('C20', 'exploration',
+      'Every deprecated alias of the package is discovered by walking all modules and all classes through their MRO (32 function and 88 method declarations, 624 (receiver class, alias) pairs, 19 keyword-renaming wrappers; cross-checked against an AST count). For every pair x 4 call variants x all argument shapes '
+      'x 2 token pools, a recording sentinel installed as the receiver\'s replacement must be reached once with identical arguments, pass its result or exception back, and exactly one DeprecationWarning naming it and nothing else may be emitted. Every obsolete keyword subset is checked the same way against a reference renaming model, '
+      'every alias name against the snake-cased callable of its scope, and 1932 (7728 thorough) paired old/new calls on real receivers must agree in result, exception, state, files and warnings.',
+      'Paired-call equality holds on the recipe arguments only; static-method aliases cannot see a receiver; engine derivative calls on And/Or/BelongsTo are excluded (engine raises, outside /repo).',
+      'bounded exhaustive enumeration of all discovered (receiver class, alias) pairs x call variants x argument shapes with a recording sentinel, plus paired old/new calls', 'DESIGN.md section 4, C20')
